@@ -1,8 +1,10 @@
 package main
 
 import (
+	"bytes"
 	"fmt"
 	"math/rand"
+	"sort"
 
 	"verif/harness/internal/bt"
 	"verif/harness/internal/btconc"
@@ -28,7 +30,7 @@ func scanSetup(nrows, ncells int) []bt.Op {
 
 // C18 Bigtable: scans stay sane while the table is being written (leveldb engines).
 func checkC18(c *Ctx) {
-	c.rule = "cases = a multi-message ReadRows scan (72 rows x 30 cells: the scan gives up the table lock after every 1025 cells, i.e. twice before its last message) interleaved with concurrent writers: (a) schedules = behaviours of the BtConc model for the mixes scan/scan2 (scan + two writers: two-mutation write, row delete, increment) mapped so that the writers touch rows before, at and after the scan position, executed through the hook gates (the scan parks in its lock-free windows), including DropRowRange(all) issued inside a window; (b) free-running runs with 8 writers; leveldb-mem and leveldb-disk engines; each recorded run validated by TLC (BtConcTrace: keys strictly ascending, every returned row equals a value that row had between scan start and end, untouched rows exactly as stored, status OK, final read-back); distinct = distinct (mix, schedule, engine); non-trivial = every case"
+	c.rule = "cases = a multi-message ReadRows scan (72 rows x 30 cells: the scan gives up the table lock after every 1025 cells, i.e. twice before its last message) interleaved with concurrent writers: (0) targeted runs: for tables with fixed-width keys and a message boundary exactly after 1024 rows, with hierarchical keys (rows whose keys extend the key the message ended on) and for scans over several disjoint ranges, the scan is driven into each of its lock-free windows and there the row it last streamed and the next one are deleted, a row is inserted right behind its position and rows before and after are rewritten; (a) schedules = behaviours of the BtConc model for the mixes scan/scan2 (scan + two writers: two-mutation write, row delete, increment) mapped so that the writers touch rows before, at and after the scan position, executed through the hook gates (the scan parks in its lock-free windows), including DropRowRange(all) issued inside a window; (b) free-running runs with 8 writers; leveldb-mem and leveldb-disk engines; each recorded run validated by TLC (BtConcTrace: keys strictly ascending, every returned row equals a value that row had between scan start and end, untouched rows exactly as stored, status OK, final read-back); distinct = distinct (mix, schedule, engine); non-trivial = every case"
 	r := rand.New(rand.NewSource(c.Seed))
 	c.modelCheckConc([]string{"scan", "scan2"}, nil)
 	nsim, keep := 400, 24
@@ -88,6 +90,147 @@ func checkC18(c *Ctx) {
 	}
 	c.Extra("stress_runs", nStress)
 	c.Extra("engines", engines)
+	tj := targetedScanJobs(r, engines, c.Quick())
+	c.Extra("targeted_window_runs", len(tj))
+	if len(tj) > 0 {
+		c.Sample(map[string]interface{}{"source": "targeted run: the scan is driven into each lock-free window and the rows around its position are written there", "label": tj[0].label, "schedule": tj[0].sched})
+	}
+	jobs = append(jobs, tj...)
 	c.runConc("C18", jobs)
 	c.Assume("TLC and the Json module are trusted; hooks are add-only one-liners under the build tag verif; the btree engine is out of scope (the repository documents that it does not offer this)")
+}
+
+// ---- targeted runs: drive the scan into each window, write around its position there ----
+
+type scanRow struct {
+	k      j.B
+	ncells int
+}
+
+// scanScenario: a table (rows in key order), the scan request, and the rows the scan visits in order
+type scanScenario struct {
+	name    string
+	rows    []scanRow
+	rs      bt.RowSet
+	visited []scanRow
+	extend  string // suffix that makes a new key sorting right behind an existing one
+}
+
+func (sc scanScenario) setup() []bt.Op {
+	ops := []bt.Op{{Ev: "CreateTable", T: concTable, Parent: btParent, Fams: []bt.FamDef{{F: j.S("f"), Rule: bt.Rule{T: "none"}}, {F: j.S("g"), Rule: bt.Rule{T: "none"}}}}}
+	op := bt.Op{Ev: "MutateRows", T: concTable, Now: j.N64(concNow)}
+	for _, r := range sc.rows {
+		var ms []bt.Mut
+		for c := 0; c < r.ncells; c++ {
+			ms = append(ms, bt.Mut{M: "set", F: j.S("g"), Q: j.S(fmt.Sprintf("c%02d", c)), Ts: 0, V: j.S("v")})
+		}
+		op.Entries = append(op.Entries, bt.Entry{K: r.k, Muts: ms})
+	}
+	return append(ops, op)
+}
+
+// boundaries: indices into visited after which the scan sends a message and gives up the lock (> 1024 chunks)
+func (sc scanScenario) boundaries() []int {
+	var out []int
+	chunks := 0
+	for i, r := range sc.visited {
+		chunks += r.ncells
+		if chunks > 1024 && i < len(sc.visited)-1 {
+			out = append(out, i)
+			chunks = 0
+		}
+	}
+	return out
+}
+
+func scanScenarios() []scanScenario {
+	var out []scanScenario
+	// A: fixed-width keys, the first message boundary falls exactly after 1024 rows
+	a := scanScenario{name: "boundary after exactly 1024 rows", extend: "x"}
+	for i := 1; i <= 1064; i++ {
+		n := 1
+		if i == 1024 {
+			n = 2
+		}
+		a.rows = append(a.rows, scanRow{rowKey(i), n})
+	}
+	a.visited = a.rows
+	out = append(out, a)
+	// B: hierarchical keys: u07, u07#a, u070 -- keys that extend the key a message may end on
+	b := scanScenario{name: "hierarchical keys", extend: "#0"}
+	for i := 1; i <= 40; i++ {
+		for _, sfx := range []string{"", "#a", "0"} {
+			b.rows = append(b.rows, scanRow{j.S(fmt.Sprintf("u%02d%s", i, sfx)), 30})
+		}
+	}
+	sort.Slice(b.rows, func(x, y int) bool { return bytes.Compare(b.rows[x].k, b.rows[y].k) < 0 })
+	b.visited = b.rows
+	out = append(out, b)
+	// C: a scan over three disjoint ranges
+	cs := scanScenario{name: "three disjoint ranges", extend: "x"}
+	for i := 1; i <= 96; i++ {
+		cs.rows = append(cs.rows, scanRow{rowKey(i), 30})
+		if i <= 30 || (i > 34 && i <= 66) || i >= 70 {
+			cs.visited = append(cs.visited, scanRow{rowKey(i), 30})
+		}
+	}
+	cs.rs = bt.RowSet{Ranges: []bt.Range{{Sk: "closed", S: rowKey(1), Ek: "closed", E: rowKey(30)}, {Sk: "open", S: rowKey(34), Ek: "closed", E: rowKey(66)}, {Sk: "closed", S: rowKey(70), Ek: "none"}}}
+	out = append(out, cs)
+	return out
+}
+
+func targetedScanJobs(r *rand.Rand, engines []string, quick bool) []concJob {
+	var jobs []concJob
+	variants := 3
+	for si, sc := range scanScenarios() {
+		bs := sc.boundaries()
+		for v := 0; v < variants; v++ {
+			if quick && (si+v+int(r.Int63()%3))%3 == 0 && v != 0 { // the quick tier runs variant 0 of every scenario and a rotating subset of the others
+				continue
+			}
+			for ei, eng := range engines {
+				if quick && (si+v+ei)%2 == 1 {
+					continue
+				}
+				procs := []btconc.Proc{{Name: "p1", Op: bt.Op{Ev: "ReadRows", T: concTable, Rs: sc.rs, Now: j.N64(concNow)}}}
+				var sched []string
+				np := 1
+				add := func(op bt.Op) {
+					np++
+					procs = append(procs, btconc.Proc{Name: procName(np), Op: op})
+					sched = append(sched, procName(np)+"!")
+				}
+				at := func(i int) (j.B, bool) {
+					if i < 0 || i >= len(sc.visited) {
+						return nil, false
+					}
+					return sc.visited[i].k, true
+				}
+				for _, b := range bs {
+					sched = append(sched, "p1>window")
+					last, _ := at(b)
+					if v == 0 || v == 1 {
+						add(concOp("del", last, "w")) // the row the message ended on
+					}
+					if v == 0 || v == 2 {
+						if k, ok := at(b + 1); ok {
+							add(concOp("del", k, "w")) // the row the scan would read next
+						}
+						add(concOp("mut2", j.S(string(last)+sc.extend), fmt.Sprintf("new%d", b))) // a new row right behind the scan position
+					}
+					if v == 0 {
+						if k, ok := at(b + 2); ok {
+							add(concOp("mut2", k, fmt.Sprintf("after%d", b)))
+						}
+						if k, ok := at(b - 1); ok {
+							add(concOp("mut2", k, fmt.Sprintf("before%d", b)))
+						}
+					}
+				}
+				jobs = append(jobs, concJob{engine: eng, setup: sc.setup(), procs: procs, sched: sched,
+					label: fmt.Sprintf("targeted: %s, variant %d, windows after visited rows %v", sc.name, v, bs)})
+			}
+		}
+	}
+	return jobs
 }
